@@ -394,7 +394,7 @@ def with_helpers(ctx, fi, exclude=(), only_private=True, depth=3, inline_locals=
             if isinstance(s, ast.Try):
                 for hd in s.handlers:
                     expand_stmt_list(hd.body, d)
-            if isinstance(s, (ast.Assign, ast.AnnAssign, ast.Expr, ast.Return)) and d > 0 and getattr(s, "value", None) is not None:
+            if isinstance(s, (ast.Assign, ast.AnnAssign, ast.AugAssign, ast.Expr, ast.Return)) and d > 0 and getattr(s, "value", None) is not None:
                 # a call of a straight-line single-return helper in argument position is hoisted into a temporary first
                 top = s.value
                 hoisted = None
